@@ -45,6 +45,11 @@ func ForRecord[T recordType](new func() T, opts ...func(*option[T])) Column {
 		defer pool.Put(value)
 		defer pool.Put(delta)
 
+		// A pooled record still holds what it was used for last, and a decoder (encoding/json
+		// for one) is free to leave the fields alone which its input does not mention.
+		resetRecord(value)
+		resetRecord(delta)
+
 		// Unmarshal the existing value
 		err1 := value.UnmarshalBinary(s2b(v))
 		err2 := delta.UnmarshalBinary(s2b(d))
@@ -68,6 +73,13 @@ func ForRecord[T recordType](new func() T, opts ...func(*option[T])) Column {
 				Merge: mergeRecord,
 			},
 		},
+	}
+}
+
+// resetRecord zeroes the record a pooled pointer points to, so that it is as good as new.
+func resetRecord(record any) {
+	if v := reflect.ValueOf(record); v.Kind() == reflect.Ptr && !v.IsNil() {
+		v.Elem().Set(reflect.Zero(v.Elem().Type()))
 	}
 }
 
